@@ -4,7 +4,30 @@ from props.parts import httprules
 THEOREMS = httprules.THEOREMS
 
 
+def run_corpus(rep):
+    """the repaired fragmentation case: the block is malformed whether it arrives whole or split mid-field"""
+    import json, os, common
+    p = os.path.join(common.VERIF, "corpus", "conn", "connection_header_split_across_continuation.json")
+    ok, binp, log = common.cargo_build("conn")
+    if not ok:
+        raise common.HarnessBuildError(log)
+    rc, out, _ = common.sh([binp, "--replay", p], timeout=120)
+    try:
+        o = json.loads(out.strip().splitlines()[-1])
+    except Exception:
+        rep.violation("broken-correspondence", {"what": "corpus replay did not run", "log": out[-2000:]}, no_input=True)
+        return
+    accepted = [st["res"] for st in o["trace"] if st["op"].get("op") == "poll_accept" and isinstance(st["res"], dict)]
+    rst = [f for st in o["trace"] for f in st["out"] if f["t"] == "RST_STREAM" and f["sid"] == 1 and f.get("code") == 1]
+    good = not accepted and bool(rst)
+    rep.oracle_runs.append({"name": "corpus:connection_header_split_across_continuation", "cases": 1, "nontrivial": 1, "failures": 0 if good else 1})
+    if not good:
+        rep.violation("failing-input", {"oracle": "corpus replay: a request with `connection: close` whose HEADERS fragment ends mid-field must be refused "
+                                                  "(RST_STREAM PROTOCOL_ERROR), not delivered", "replay": p, "accepted": accepted, "rst": rst})
+
+
 def correspond(rep, tier, seed):
+    run_corpus(rep)
     rep.assumptions.append("the field list checked is the one the HPACK decoder yields (C11's model); one header block per frame")
     httprules.correspond_httprules(rep, tier, seed)
 
